@@ -91,6 +91,15 @@ def spec_strategy(draw, backend, idx):
         e1, e2 = expr(), expr()
         code.append(f"std::vector<double> {res}; {res}.push_back({e1.replace('__OBJPT__', (mobj or '') + arrow + 'pt()')}); {res}.push_back({e2.replace('__OBJPT__', (mobj or '') + arrow + 'pt()')});")
         meaning.append((res, f"[{e1}, {e2}]"))
+    elif draw(st.integers(0, 3)) == 0:
+        # a statement that spans several of the supplied lines: the lines must arrive as they are (no ';' after the if)
+        e1, e2, t = expr(), expr(), term()
+        ctype = {"double": "double", "float": "float", "int": "double"}[ret]
+        sub = lambda x: x.replace("__OBJPT__", (mobj or "") + arrow + "pt()")
+        code.append(f"{ctype} {res} = {sub(e1)};")
+        code.append(f"if ({sub(t)} > 1.5)")
+        code.append(f"  {res} = {sub(e2)};")
+        meaning.append((res, f"(({e2}) if (({t}) > 1.5) else ({e1}))"))
     else:
         e = expr()
         ctype = {"double": "double", "float": "float", "int": "double"}[ret]
@@ -100,6 +109,9 @@ def spec_strategy(draw, backend, idx):
     if ret_coll and "vector" not in includes:
         includes.append("vector")
     name = f"vfFn{idx}"
+    if not is_method and draw(st.integers(0, 5)) == 0:
+        # the query's own function under the name of a function everyone knows: the query means its own
+        name = draw(st.sampled_from([["round", "sqrt", "log"], ["pow", "abs", "fmax"], ["sin", "floor", "exp"]][idx % 3]))
     md = {"metadata_type": "add_cpp_function", "name": name, "include_files": includes, "arguments": params, "code": code, "return_type": ret if ret != "int" else "double"}
     if res != "result":
         md["result_name"] = res
@@ -227,7 +239,7 @@ def cases(draw, backend):
                 for kk, vv in o.vec.items():
                     if not vv:
                         vv.append(1.5)
-    return {"backend": backend, "specs": specs, "text": text, "expect_error": expect_error, "evs": evs, "mode": mode, "ncalls": text.count("vfFn") - len(specs),
+    return {"backend": backend, "specs": specs, "text": text, "expect_error": expect_error, "evs": evs, "mode": mode, "ncalls": sum(text.count(s_["name"] + "(") for s_ in specs),
             "extra_labels": sorted(labels_extra)}
 
 
@@ -293,6 +305,7 @@ def match_block(s, blk, rep):
         raise Violation("block-lines", f"{s['name']}: block holds {body}, the specification has {len(code)} lines", rep)
     binding: Dict[str, str] = {}
     for tl, el in zip(code, body):
+        tl = tl.strip()
         rx, groups = template_regex(tl.rstrip(";") if not tl.endswith(";") else tl[:-1], names)
         m = rx.match(el[:-1] if el.endswith(";") else el)
         if not m:
